@@ -24,6 +24,8 @@ OneW(n) == WFromInt(1, n)
 IsFix(o) == o.kind \in {"fix", "fconst"}
 (* the operand's raw 8 bytes / constant as an n-byte signed word *)
 RawOf(k, o) == IF o.kind \in {"iconst", "fconst"} THEN o.v
+               ELSE IF "key" \in DOMAIN o                      \* a hash-map variable: the entry of its key
+                    THEN WSext(LoadBytes(Mem(k), Rg("hash", o.fd, o.key), 0, 8), k.n)
                ELSE WSext(LoadBytes(Mem(k), Rg("arr", o.fd, <<>>), o.off, 8), k.n)
 RatOf(k, o) == IF IsFix(o) THEN <<RawOf(k, o), FB(k.n)>> ELSE <<RawOf(k, o), OneW(k.n)>>
 
